@@ -14,7 +14,8 @@ Parts
      (swaps, 3-/4-cycles, chains), through t2grid.rename_blocks and through t2data.rename_blocks
      (also inverted); reorder with every block permutation / every connection permutation with any
      subset reversed; minc; `+`; embed; check(fix=True).  Two histories reaching the same view
-     (ordered lists of names, rock assignment, volumes) are expanded once.
+     (ordered lists of names, rock assignment, volumes) are expanded once.  Length 4 (thorough): all
+     states reached from 'empty' and 'chain3', a seeded quarter of those reached from 'ring4'.
   B  real replays without any cloning: every sequence of length <= 2 from the three initial grids,
      and random sequences of length <= 60 on the small universe.
   C  random sequences of length <= 60 on grids of <= 200 blocks built from geometries
@@ -32,6 +33,28 @@ sys.path.insert(0, REPO)
 import io, contextlib
 import numpy as np
 from t2data import *          # t2data, t2grid, t2block, t2connection, rocktype, mulgrid
+
+import signal
+
+
+class HarnessTimeout(BaseException):
+    pass
+
+
+def _on_alarm(signum, frame):
+    raise HarnessTimeout()
+
+
+@contextlib.contextmanager
+def time_limit(seconds):
+    """A library call that does not return within `seconds` is a failure ('timeout ...')."""
+    signal.signal(signal.SIGALRM, _on_alarm)
+    signal.setitimer(signal.ITIMER_REAL, seconds)
+    try:
+        yield
+    finally:
+        signal.setitimer(signal.ITIMER_REAL, 0)
+
 
 NAMES = ['  a 1', '  b 1', '  c 1', '  d 1']
 ROCKS = ['rock1', 'rock2']
@@ -473,8 +496,9 @@ class Stats(object):
     def failure(self, key, what, history, init):
         inp = {'initial': init, 'history': [jsonable(o) for o in history]}
         old = self.fail.get(key)
-        if old is None or old[0] > len(history):
-            self.fail[key] = (len(history), {'key': key, 'what': what, 'input': inp})
+        rank = (len(history), repr(init), repr(history))       # shortest history, ties broken deterministically
+        if old is None or old[0] > rank:
+            self.fail[key] = (rank, {'key': key, 'what': what, 'input': inp})
 
     def done(self):
         self.cpu += time.process_time()
@@ -502,7 +526,12 @@ def contract_step(g, op, history, init, st, vw=None):
     st.nsteps += 1
     raised = None
     try:
-        g2 = apply_op(g, op)
+        with time_limit(30 if len(vw[1]) < 50 else 120):
+            g2 = apply_op(g, op)
+    except HarnessTimeout:
+        st.count('raises')
+        st.failure('timeout %s %s' % (cat, opstr(op)), 'the operation did not return within the time limit; pre-state %r' % (vw,), hist, init)
+        return None, None
     except Exception as e:      # noqa
         raised = e
         g2 = g
@@ -710,8 +739,9 @@ def expand(task):
             g2, post = contract_step(g, op, history, initname, st, vw)
             if g2 is not None and not last and post != vw:
                 key = (initname, post)
-                if key not in new:
-                    new[key] = tuple(history) + (op,)
+                h2 = tuple(history) + (op,)
+                if key not in new or repr(h2) < repr(new[key]):
+                    new[key] = h2
     return new, st.done(), npairs
 
 
@@ -994,22 +1024,27 @@ def main():
         seen = set((name, view(raw_grid(*INITIAL[name]))) for name in INITIAL)
         for level in range(1, depth + 1):
             last = level == depth
-            # thorough, last level: expand from every state; chunk for load balance
             rnd = random.Random(seed + level)
+            nfull = len(frontier)
+            if level == 4:
+                # length-4 sequences: every one from 'empty' and 'chain3' (the fourth name gets added on the way);
+                # from 'ring4' (whose alphabet is the largest) a seeded quarter of the length-3 states
+                frontier = [x for x in frontier if x[0] != 'ring4' or rnd.random() < 0.25]
             rnd.shuffle(frontier)
             csize = max(1, min(200, len(frontier) // (nproc * 4) + 1))
             tasks = [(frontier[i:i + csize], last) for i in range(0, len(frontier), csize)]
-            newfrontier = []
+            cand = {}
             npairs = 0
             for new, st, n in pool.imap_unordered(expand, tasks):
                 total.merge(st)
                 npairs += n
-                for key in sorted(new, key=repr) if False else new:
-                    if key not in seen:
-                        seen.add(key)
-                        newfrontier.append((key[0], new[key]))
+                for key, h2 in new.items():
+                    if key not in seen and (key not in cand or repr(h2) < repr(cand[key])):
+                        cand[key] = h2
+            seen.update(cand)
+            newfrontier = [(key[0], h2) for key, h2 in cand.items()]
             distinct += npairs
-            levels.append({'level': level, 'states_expanded': len(frontier), 'state_op_pairs': npairs,
+            levels.append({'level': level, 'states_reached': nfull, 'states_expanded': len(frontier), 'state_op_pairs': npairs,
                            'new_states': len(newfrontier), 't': round(time.time() - t0, 1)})
             newfrontier.sort(key=repr)
             frontier = newfrontier
@@ -1031,7 +1066,7 @@ def main():
         for st, n, sample in pool.imap_unordered(random_small, tasks):
             total.merge(st)
             nb2 += n
-            if sample and len(samples) < 2:
+            if sample:
                 samples.append(sample)
         perb = max(1, nbig // (nproc * 4))
         tasks = [(seed * 7000003 + 17 + i, perb, 60) for i in range(nbig // perb)]
@@ -1039,11 +1074,13 @@ def main():
         for st, n, sample in pool.imap_unordered(random_big, tasks):
             total.merge(st)
             nc += n
-            if sample and len(samples) < 5:
+            if sample:
                 samples.append(sample)
     distinct += nb1 + nb2 + nc
+    samples.sort(key=lambda x: json.dumps(x, sort_keys=True))
+    samples = [x for x in samples if 'geometry' not in x][:2] + [x for x in samples if 'geometry' in x][:3]
     # failures: at most 60, every category (first word) represented, shortest histories first
-    allf = sorted((f for l, f in total.fail.values()), key=lambda f: (len(f['input']['history']), f['key']))
+    allf = [f for l, f in sorted(total.fail.values(), key=lambda x: (x[0][0], x[1]['key']))]
     bycat = {}
     for f in allf:
         bycat.setdefault(f['key'].split(' ')[0], []).append(f)
@@ -1055,7 +1092,7 @@ def main():
                 out.append(bycat[cat][rank])
         rank += 1
     samples.append({'levels': levels, 'real_replays_len2': nb1, 'random_small_sequences': nb2, 'random_geometry_sequences': nc,
-                    'steps': total.nsteps, 'worker_cpu_seconds': round(total.cpu, 1), 'per_contract': total.per_contract,
+                    'steps': total.nsteps, 'worker_cpu_seconds': round(total.cpu, 1), 'per_contract': dict(sorted(total.per_contract.items())),
                     'failure_categories': dict((c, len(v)) for c, v in sorted(bycat.items()))})
     print('@@JSON@@' + json.dumps({'evaluations': total.evaluations, 'distinct': distinct, 'failures': out,
                                    'nfailures': len(allf), 'samples': samples, 'seconds': round(time.time() - t0, 2)}))
